@@ -269,14 +269,34 @@ var (
 
 // bootSignature = (property, risk features of the world, normalised first diagnostic).
 func bootSignature(prop string, w *spec.World, diag string) string {
+	if w.Probe == "" {
+		// seeded world: the emitted file the first diagnostic points at names the generator
+		// feature involved; the world's full feature list would make the signature unstable
+		return prop + "|boot|" + diagFileKind(diag) + "|" + normaliseDiag(diag)
+	}
 	var risk []string
 	for _, f := range w.Features {
-		if strings.HasPrefix(f, "risky_") || strings.HasPrefix(f, "ann_") || f == "field_examples" {
+		if strings.HasPrefix(f, "risky_") {
 			risk = append(risk, f)
 		}
 	}
 	sort.Strings(risk)
 	return prop + "|boot|" + w.Probe + "|" + strings.Join(risk, ",") + "|" + normaliseDiag(diag)
+}
+
+var reDiagFile = regexp.MustCompile(`([A-Za-z0-9_]+)\.(pb\.go|ts):`)
+
+// diagFileKind extracts e.g. "unwrap.pb.go" from ".../svc_unwrap.pb.go:234:13: ...".
+func diagFileKind(diag string) string {
+	m := reDiagFile.FindStringSubmatch(diag)
+	if m == nil {
+		return ""
+	}
+	name := m[1]
+	if i := strings.Index(name, "_"); i >= 0 {
+		name = name[i+1:]
+	}
+	return name + "." + m[2]
 }
 
 func normaliseDiag(d string) string {
